@@ -17,6 +17,8 @@ import (
 	sdk "github.com/cosmos/cosmos-sdk/types"
 	"github.com/cosmos/cosmos-sdk/types/bech32"
 
+	banktypes "github.com/cosmos/cosmos-sdk/x/bank/types"
+
 	"github.com/irismod/service/types"
 )
 
@@ -28,11 +30,10 @@ func (s *Sim) dumpState() []string {
 	}
 
 	// A: accounts with a non-zero stake balance that held nothing at baseline
-	s.app.BankKeeper.IterateAllBalances(s.ctx, func(addr sdk.AccAddress, coin sdk.Coin) bool {
+	s.iterateBalances(func(addr sdk.AccAddress, coin sdk.Coin) {
 		if coin.Denom == stakeDenom && !coin.Amount.IsZero() && !s.baseline[string(addr)] {
 			lines = append(lines, fmt.Sprintf("A %s %s", hexOrDash(addr), coin.Amount))
 		}
-		return false
 	})
 
 	supply := s.app.BankKeeper.GetSupply(s.ctx).GetTotal().AmountOf(stakeDenom)
@@ -43,6 +44,25 @@ func (s *Sim) dumpState() []string {
 	}
 	sort.Strings(lines)
 	return lines
+}
+
+// iterateBalances scans the raw bank store. The bank keeper's own iterator assumes
+// 20-byte addresses when it cuts the address out of the key (balances|addr|denom); the
+// service module pays to addresses of any length, so the address is recovered here as
+// the key without the trailing denom of the stored coin.
+func (s *Sim) iterateBalances(fn func(addr sdk.AccAddress, coin sdk.Coin)) {
+	store := s.ctx.KVStore(s.app.GetKey(banktypes.StoreKey))
+	it := sdk.KVStorePrefixIterator(store, banktypes.BalancesPrefix)
+	defer it.Close()
+	for ; it.Valid(); it.Next() {
+		var coin sdk.Coin
+		s.app.AppCodec().MustUnmarshalBinaryBare(it.Value(), &coin)
+		key := it.Key()[len(banktypes.BalancesPrefix):]
+		if len(key) < len(coin.Denom) {
+			continue
+		}
+		fn(sdk.AccAddress(append([]byte{}, key[:len(key)-len(coin.Denom)]...)), coin)
+	}
 }
 
 type kvPair struct{ key, value []byte }
@@ -96,7 +116,7 @@ func decodeEntry(cdc codec.Marshaler, prefix byte, k, v []byte) (string, bool) {
 			return "", false
 		}
 		return fmt.Sprintf("B %s %s %s %s %s %s %d %s %s %s",
-			svc, hexOrDash(prov), hexOrDash(b.Owner), b.Deposit.AmountOf(stakeDenom), bit(b.Available),
+			wordOrDash(svc), hexOrDash(prov), hexOrDash(b.Owner), b.Deposit.AmountOf(stakeDenom), bit(b.Available),
 			timeNs(b.DisabledTime), b.QoS, price, promT, promV), true
 
 	case 0x03: // owner binding: owner(20) svc 0x00 prov -> {}
@@ -105,10 +125,10 @@ func decodeEntry(cdc codec.Marshaler, prefix byte, k, v []byte) (string, bool) {
 		}
 		owner, rest := k[:sdk.AddrLen], k[sdk.AddrLen:]
 		i := bytes.IndexByte(rest, 0x00)
-		if i < 0 || !plainWord(string(rest[:i])) {
+		if i < 0 || !wordOrEmpty(string(rest[:i])) {
 			return "", false
 		}
-		return fmt.Sprintf("OB %s %s %s", hex.EncodeToString(owner), rest[:i], hexOrDash(rest[i+1:])), true
+		return fmt.Sprintf("OB %s %s %s", hex.EncodeToString(owner), wordOrDash(string(rest[:i])), hexOrDash(rest[i+1:])), true
 
 	case 0x04: // owner of provider: prov -> BytesValue(owner)
 		var o gogotypes.BytesValue
@@ -130,7 +150,7 @@ func decodeEntry(cdc codec.Marshaler, prefix byte, k, v []byte) (string, bool) {
 		if !ok || cdc.UnmarshalBinaryBare(v, &p) != nil {
 			return "", false
 		}
-		return fmt.Sprintf("PR %s %s %s %s %s", svc, hexOrDash(prov), p.Price.AmountOf(stakeDenom),
+		return fmt.Sprintf("PR %s %s %s %s %s", wordOrDash(svc), hexOrDash(prov), p.Price.AmountOf(stakeDenom),
 			promTText(p.PromotionsByTime), promVText(p.PromotionsByVolume)), true
 
 	case 0x07: // withdraw address: owner -> raw address bytes
@@ -197,12 +217,12 @@ func decodeEntry(cdc codec.Marshaler, prefix byte, k, v []byte) (string, bool) {
 			return "", false
 		}
 		svc, addr, rest := string(k[:i]), string(k[i+1:i+1+j]), k[i+1+j+1:]
-		_, prov, err := bech32.DecodeAndConvert(addr)
+		prov, ok := decodeBech32(addr)
 		var id gogotypes.BytesValue
-		if err != nil || !plainWord(svc) || len(rest) < 8 || cdc.UnmarshalBinaryBare(v, &id) != nil || !bytes.Equal(id.Value, rest[8:]) {
+		if !ok || !wordOrEmpty(svc) || len(rest) < 8 || cdc.UnmarshalBinaryBare(v, &id) != nil || !bytes.Equal(id.Value, rest[8:]) {
 			return "", false
 		}
-		return fmt.Sprintf("AB %s %s %d %s", svc, hexOrDash(prov), int64(binary.BigEndian.Uint64(rest[:8])), hexOrDash(rest[8:])), true
+		return fmt.Sprintf("AB %s %s %d %s", wordOrDash(svc), hexOrDash(prov), int64(binary.BigEndian.Uint64(rest[:8])), hexOrDash(rest[8:])), true
 
 	case 0x15: // active request by id: id -> BytesValue(id)
 		var id gogotypes.BytesValue
@@ -228,15 +248,15 @@ func decodeEntry(cdc codec.Marshaler, prefix byte, k, v []byte) (string, bool) {
 	case 0x17: // request volume: bech32(cons) 0x00 svc 0x00 bech32(prov) 0x00 -> UInt64Value
 		parts := bytes.Split(k, []byte{0x00})
 		var n gogotypes.UInt64Value
-		if len(parts) != 4 || len(parts[3]) != 0 || cdc.UnmarshalBinaryBare(v, &n) != nil || !plainWord(string(parts[1])) {
+		if len(parts) != 4 || len(parts[3]) != 0 || cdc.UnmarshalBinaryBare(v, &n) != nil || !wordOrEmpty(string(parts[1])) {
 			return "", false
 		}
-		_, cons, err1 := bech32.DecodeAndConvert(string(parts[0]))
-		_, prov, err2 := bech32.DecodeAndConvert(string(parts[2]))
-		if err1 != nil || err2 != nil {
+		cons, ok1 := decodeBech32(string(parts[0]))
+		prov, ok2 := decodeBech32(string(parts[2]))
+		if !ok1 || !ok2 {
 			return "", false
 		}
-		return fmt.Sprintf("VO %s %s %s %d", hexOrDash(cons), parts[1], hexOrDash(prov), n.Value), true
+		return fmt.Sprintf("VO %s %s %s %d", hexOrDash(cons), wordOrDash(string(parts[1])), hexOrDash(prov), n.Value), true
 
 	case 0x18: // provider earned fees: prov denom -> Coin
 		var c sdk.Coin
@@ -261,12 +281,28 @@ func splitSvcBech32(k []byte) (svc string, addr []byte, ok bool) {
 	if i < 0 {
 		return "", nil, false
 	}
-	_, addr, err := bech32.DecodeAndConvert(string(k[i+1:]))
-	if err != nil || !plainWord(string(k[:i])) {
+	addr, ok = decodeBech32(string(k[i+1:]))
+	if !ok || !wordOrEmpty(string(k[:i])) {
 		return "", nil, false
 	}
 	return string(k[:i]), addr, true
 }
+
+// decodeBech32 inverts AccAddress.String() for addresses of any length; the
+// empty address is rendered by the SDK as the empty string.
+func decodeBech32(s string) ([]byte, bool) {
+	if s == "" {
+		return []byte{}, true
+	}
+	_, bz, err := bech32.DecodeAndConvert(s)
+	if err != nil {
+		return nil, false
+	}
+	return bz, true
+}
+
+// wordOrEmpty reports whether s is empty or printable as one field.
+func wordOrEmpty(s string) bool { return s == "" || plainWord(s) }
 
 // parsePricingText re-parses a binding's Pricing TEXT with encoding/json,
 // independently of the parsed Pricing stored under 0x06.
